@@ -110,13 +110,12 @@ Params(sel) ==
                              ELSE [branch |-> IF RefBranch(sel.v) = "" THEN "-" ELSE RefBranch(sel.v), ref |-> "-"]
 ParamStr(p) == (IF p.ref # "-" THEN ",ref=" \o QName(p.ref) ELSE "") \o (IF p.branch # "-" THEN ",branch=" \o QName(p.branch) ELSE "")
 GitToBzr(u, sel) == Normal(u) \o ParamStr(Params(sel))
-\* bzr_url_to_git_url on that URL: split the segment parameters off again.
-\* AS CODED (crates/git/src/lib.rs) the ref is looked up under the key "revno", which git_url_to_bzr_url never writes.
-BzrToGitIntended(u, sel) == [loc |-> Normal(u), branch |-> Params(sel).branch, ref |-> Params(sel).ref]
-BzrToGitCoded(u, sel)    == [loc |-> Normal(u), branch |-> Params(sel).branch, ref |-> "-"]
+\* bzr_url_to_git_url on that URL (crates/git/src/lib.rs): split the segment parameters off again and return
+\* the values of "branch" and "ref" (until repo commit 1fe1045 the ref was looked up under "revno" and was lost).
+BzrToGit(u, sel) == [loc |-> Normal(u), branch |-> Params(sel).branch, ref |-> Params(sel).ref]
 \* GitBranch.set_parent(GitToBzr(u, sel)) ; get_parent().
-\* AS CODED set_parent writes branch.<local branch>.merge, _get_related_merge_branch reads branch.<remote>.merge,
-\* so the selected branch/ref never comes back.
+\* AS CODED set_parent writes branch.<local branch>.merge (the branch as a ref, or the ref parameter as given),
+\* _get_related_merge_branch reads branch.<remote>.merge, so neither a selected branch nor a selected ref comes back.
 ParentIntended(u, sel) == GitToBzr(u, sel)
 ParentCoded(u, sel) == Normal(u)
 
@@ -136,7 +135,7 @@ SpecOut(kind, c) ==
                           rbb |-> IF RefToBranch(c.x) = ERR THEN "ERR" ELSE Str(BranchToRef(RefToBranch(c.x))),
                           rt |-> Out(RefToTag(c.x)),
                           rtt |-> IF RefToTag(c.x) = ERR THEN "ERR" ELSE Str(TagToRef(RefToTag(c.x)))]
-      [] kind = "url" -> LET b == BzrToGitCoded(c.u, c.sel) IN
+      [] kind = "url" -> LET b == BzrToGit(c.u, c.sel) IN
                          [plain |-> Normal(c.u), bz |-> GitToBzr(c.u, c.sel), loc |-> b.loc,
                           branch |-> IF b.branch = "-" THEN "-" ELSE QName(b.branch), branchU |-> b.branch,
                           ref |-> IF b.ref = "-" THEN "-" ELSE QName(b.ref), refU |-> b.ref]
@@ -160,7 +159,8 @@ Law(n, kind, c, o) ==
       [] n = "parent"    -> kind = "parent" => o.parent = ParentIntended(c.u, c.sel)
 Failed(kind, c, o) == {n \in Range(LawNames) : ~Law(n, kind, c, o)}
 
-\* named deviations of the pinned code from the intended mapping
-UrlRefDeviation(c) == Params(c.sel).ref # "-"
+\* a ref survives as ref parameter (not HEAD, not a branch ref)
+UrlRefSelected(c) == Params(c.sel).ref # "-"
+\* named deviation of the code from the intended mapping
 ParentDeviation(c) == Params(c.sel).ref # "-" \/ Params(c.sel).branch # "-"
 =============================================================================
